@@ -275,7 +275,14 @@ impl Read for SimReader {
                 probe(Probe::ReadHardError);
                 READER_LOG.with(|l| l.borrow_mut().hard_error = true);
                 log_fp(6, 0);
-                return Err(io::Error::new(io::ErrorKind::Other, "simulated I/O error"));
+                let kind = match clock::choose(5) {
+                    0 => io::ErrorKind::Other,
+                    1 => io::ErrorKind::WouldBlock,
+                    2 => io::ErrorKind::UnexpectedEof,
+                    3 => io::ErrorKind::BrokenPipe,
+                    _ => io::ErrorKind::InvalidData,
+                };
+                return Err(io::Error::new(kind, "simulated I/O error"));
             }
             7 if self.allow_early && self.pos < self.data.len() => {
                 self.done = true;
